@@ -23,3 +23,14 @@ Proof. intros; split; reflexivity. Qed.
 Example C19_example : snd (run empty_env [AddV [97%N] (VBool true); AddF [65%N] 1%N; AddV [65%N] (VBool false); RemV [97%N]; RemF [97%N]]) =
   [OUnit; OUnit; OUnit; OVal (VBool false); OFn [65%N] 1%N].
 Proof. reflexivity. Qed.
+
+(* the key: name.to_lowercase() through the case tables regenerated from the toolchain (every script, one-to-many mappings included; names with a capital sigma are outside the model).
+   Folding is idempotent - a stored key is its own key - so a name and its lower-cased spelling always address the same entry *)
+Require Import GenUnicode Builtins CaseFacts.
+Theorem C19_fold_idempotent : forall n, fold_name (fold_name n) = fold_name n.
+Proof. exact fold_name_idem. Qed.
+Theorem C19_lowercased_spelling_same_entry : forall s n, q_var s (fold_name n) = q_var s n /\ q_fn s (fold_name n) = q_fn s n.
+Proof. intros s n. unfold q_var, q_fn. rewrite fold_name_idem. split; reflexivity. Qed.
+Example C19_fold_example : fold_name [937]%N = fold_name [969]%N /\ fold_name [8490]%N = fold_name [75]%N /\ fold_name [304]%N = [105; 775]%N /\ fold_name [223]%N <> fold_name [115;115]%N.
+Proof. vm_compute. repeat split; try reflexivity. discriminate. Qed.
+Print Assumptions C19_fold_idempotent.
